@@ -81,6 +81,7 @@ func (a *asm) waitcnt(x int) { a.sopp(12, x) }
 type MicroKernel struct {
 	Index    int      `json:"index"`
 	Words    []uint32 `json:"words"`
+	CodeWords int     `json:"code_words"` // words that are instructions (a constant table may follow)
 	WGSize   int      `json:"wg_size"`
 	NumWG    int      `json:"num_wg"`
 	LDS      int      `json:"lds"`
@@ -138,28 +139,31 @@ func log2(n int) int {
 	return k
 }
 
-func genMicro(rng *vh.Rng, idx int) MicroKernel {
-	k := MicroKernel{Index: idx, Features: []string{}}
-	k.WGSize = []int{64, 64, 128, 256, 96, 192}[rng.Intn(6)]
-	k.NumWG = []int{1, 2, 3, 5, 8}[rng.Intn(5)]
-	feat := map[string]bool{
-		"loop": rng.Intn(2) == 0, "lds": rng.Intn(3) == 0, "in2": rng.Intn(2) == 0,
-		"sload": rng.Intn(3) == 0, "cndmask": rng.Intn(3) == 0, "late-wait": rng.Intn(2) == 0,
-		"x2": rng.Intn(4) == 0, "diverge": rng.Intn(3) == 0, "wg-dependent-trip": rng.Intn(2) == 0,
-	}
-	a := &asm{}
-	// s[4:5]=in s[6:7]=in2 s[8:9]=out s[10:11]=out2
-	a.smemLoad(3, 4, 0, 0) // s_load_dwordx8 s[4:11], s[0:1], 0
+// Register plan of every micro-kernel:
+//   s[0:1] kernarg  s2 group id  s3 first global id of the group
+//   s[4:5] in  s[6:7] in2  s[8:9] out  s[10:11] out2  s[22:23] scr  s12..s15 temporaries
+//   s16 loop counter  s17 group size  s18 mask  s[20:21] saved EXEC  s[24:25] PC  s26 distance
+//   v0 tid  v1 gid  v2 gid*4  v[3:4] &in[gid]  v5 accumulator  v[6:7] &out[gid]  v8..v11 temporaries
+//   v12 LDS address  v[13:14] &in2[gid]  v[15:16] &out2[gid]  v[18:19] x2 data
+//   v[20:21] &scr[gid*scrSlots]  v[22:23] address of one scr slot  v24 gid*4*scrSlots
+const scrSlots = 8
+
+func prologue(a *asm, k *MicroKernel) {
+	a.smemLoad(3, 4, 0, 0)  // s_load_dwordx8 s[4:11], s[0:1], 0
+	a.smemLoad(1, 22, 0, 32) // s_load_dwordx2 s[22:23], s[0:1], 32
 	a.waitcnt(wLGK0)
-	// s3 = wg id * wg size (s_mul_i32 with an inline constant or s17 for sizes > 64)
 	a.sopk(0, 17, k.WGSize) // s_movk_i32 s17, wgsize
 	a.sop2(36, 3, sgpr(2), sgpr(17))
-	a.vop2(25, 1, sgpr(3), 0) // v1 = gid
+	a.vop2(25, 1, sgpr(3), 0)  // v1 = gid
 	a.vop2(18, 2, konst(2), 1) // v2 = gid*4
 	addr64(a, 3, 4)
 	addr64(a, 6, 8)
 	addr64(a, 13, 6)
 	addr64(a, 15, 10)
+	a.vop2(18, 24, konst(5), 1) // v24 = gid*32 = gid*4*scrSlots
+	a.vop1(1, 21, sgpr(23))
+	a.vop2(25, 20, sgpr(22), 24)
+	a.vop2(28, 21, konst(0), 21)
 	a.flat(20, 3, 0, 5) // flat_load_dword v5, v[3:4]
 	for i, s := range sTemps {
 		a.sop1(0, s, konst(3*i+1)) // s_mov_b32
@@ -168,6 +172,258 @@ func genMicro(rng *vh.Rng, idx int) MicroKernel {
 	a.vop1(1, 9, vsrc(1))
 	a.vop1(1, 10, konst(7))
 	a.vop1(1, 11, sgpr(2))
+}
+
+// scrAddr sets v[22:23] to the address of slot j of the work-item's scratch row.
+func scrAddr(a *asm, j int) {
+	a.vop2(25, 22, konst(4*j), 20)  // v_add_u32 v22, vcc, 4j, v20
+	a.vop2(28, 23, konst(0), 21)    // v_addc_u32 v23, vcc, 0, v21, vcc
+}
+
+func epilogue(rng *vh.Rng, a *asm) {
+	a.vop2(21, 5, vsrc(8), 5)                 // v5 ^= v8
+	a.vop2(25, 5, vsrc(10), 5)                // v5 += v10
+	a.vop2(21, 9, vsrc(11), 9)                // v9 ^= v11
+	a.vop2(25, 9, sgpr(pick(rng, sTemps)), 9) // v9 += s
+	a.flat(28, 6, 5, 0)                       // flat_store_dword v[6:7], v5
+	a.flat(28, 15, 9, 0)                      // flat_store_dword v[15:16], v9
+	if rng.Bool() {
+		a.waitcnt(wAll)
+	}
+	a.sopp(1, 0) // s_endpgm
+}
+
+// ---- family "chain": every pairing of memory operations around waits --------
+
+type memKind int
+
+const (
+	mVLoad memKind = iota
+	mVStore
+	mSLoad
+	mLDS
+)
+
+var memKindName = []string{"vload", "vstore", "sload", "lds"}
+
+// chainState hands out temporaries and remembers which results are still in flight.
+type chainState struct {
+	a        *asm
+	rng      *vh.Rng
+	vFree    []int
+	sFree    []int
+	pendVM   []int // VGPRs written by vector loads not yet waited for
+	pendLGKM []int // code: vgpr n (LDS read) or 1000+n for SGPR n (scalar load)
+	ready    []int
+	slot     int   // next scratch slot
+	acked    []int // scratch slots whose store has been waited for
+	unacked  []int
+	ldsSlot  int
+}
+
+func (c *chainState) takeV() (int, bool) {
+	if len(c.vFree) == 0 {
+		return 0, false
+	}
+	r := c.vFree[0]
+	c.vFree = c.vFree[1:]
+	return r, true
+}
+
+func (c *chainState) takeS() (int, bool) {
+	if len(c.sFree) == 0 {
+		return 0, false
+	}
+	r := c.sFree[0]
+	c.sFree = c.sFree[1:]
+	return r, true
+}
+
+func (c *chainState) issue(k memKind) {
+	a, rng := c.a, c.rng
+	switch k {
+	case mVLoad:
+		r, ok := c.takeV()
+		if !ok {
+			return
+		}
+		switch {
+		case len(c.acked) > 0 && rng.Bool():
+			// read back what this work-item stored earlier in the kernel (the store was waited for)
+			scrAddr(a, c.acked[rng.Intn(len(c.acked))])
+			a.flat(20, 22, 0, r)
+		case rng.Bool():
+			a.flat(20, 13, 0, r) // in2[gid]
+		default:
+			a.flat(20, 3, 0, r) // in[gid]
+		}
+		c.pendVM = append(c.pendVM, r)
+	case mVStore:
+		if c.slot >= scrSlots {
+			return
+		}
+		scrAddr(a, c.slot)
+		a.flat(28, 22, 5, 0) // flat_store_dword v[22:23], v5
+		c.unacked = append(c.unacked, c.slot)
+		c.slot++
+		if rng.Bool() {
+			a.vop2(25, 5, konst(1+rng.Intn(60)), 5) // the stored register changes right after the store
+		}
+	case mSLoad:
+		r, ok := c.takeS()
+		if !ok {
+			return
+		}
+		a.smemLoad(0, r, 6, 4*rng.Intn(16)) // s_load_dword s, s[6:7], imm
+		c.pendLGKM = append(c.pendLGKM, 1000+r)
+	case mLDS:
+		r, ok := c.takeV()
+		if !ok {
+			return
+		}
+		// own slot: write the accumulator, read it back
+		a.ds(13, 12, 5, 0, 0)
+		a.vop2(25, 5, konst(3), 5)
+		a.ds(54, 12, 0, r, 0)
+		c.pendLGKM = append(c.pendLGKM, r)
+	}
+}
+
+func (c *chainState) wait(x int) {
+	c.a.waitcnt(x)
+	if x == wVM0 || x == wAll {
+		c.ready = append(c.ready, c.pendVM...)
+		c.pendVM = nil
+		c.acked = append(c.acked, c.unacked...)
+		c.unacked = nil
+	}
+	if x == wLGK0 || x == wAll {
+		c.ready = append(c.ready, c.pendLGKM...)
+		c.pendLGKM = nil
+	}
+}
+
+// use folds every result that has been waited for into the accumulators.
+func (c *chainState) use() {
+	for _, r := range c.ready {
+		if r >= 1000 {
+			c.a.vop2(25, 9, sgpr(r-1000), 9) // v9 += s
+			c.a.vop2(21, 5, sgpr(r-1000), 5) // v5 ^= s
+			c.sFree = append(c.sFree, r-1000)
+		} else {
+			c.a.vop2(21, 5, vsrc(r), 5) // v5 ^= v
+			c.a.vop2(25, 9, vsrc(r), 9) // v9 += v
+			c.vFree = append(c.vFree, r)
+		}
+	}
+	c.ready = nil
+}
+
+func counterOf(k memKind) int {
+	if k == mSLoad || k == mLDS {
+		return wLGK0
+	}
+	return wVM0
+}
+
+func genChain(rng *vh.Rng, a *asm, k *MicroKernel) {
+	k.LDS = 4 * k.WGSize
+	a.waitcnt(wAll)
+	a.vop2(18, 12, konst(2), 0) // v12 = tid*4 (own LDS slot)
+	c := &chainState{a: a, rng: rng, vFree: []int{8, 10, 11, 18, 19}, sFree: []int{12, 13, 14, 15}}
+	// scripted pairings: X, wait until X is complete, Y, wait for Y's counter only, use
+	for i := 0; i < 3+rng.Intn(4); i++ {
+		x, y := memKind(rng.Intn(4)), memKind(rng.Intn(4))
+		k.Features = append(k.Features, "pair:"+memKindName[x]+">"+memKindName[y])
+		c.issue(x)
+		switch rng.Intn(3) {
+		case 0:
+			c.wait(counterOf(x))
+		case 1:
+			c.wait(wAll)
+		default:
+			// no wait: the two are in flight together
+		}
+		c.issue(y)
+		c.wait(counterOf(y))
+		c.use()
+	}
+	// free-form tail
+	for i := 0; i < rng.Intn(8); i++ {
+		switch rng.Intn(7) {
+		case 0, 1, 2, 3:
+			c.issue(memKind(rng.Intn(4)))
+		case 4:
+			c.wait([]int{wVM0, wLGK0, wAll}[rng.Intn(3)])
+		case 5:
+			c.use()
+		default:
+			a.vop2(pick(rng, []int{21, 25, 26, 19, 20}), 5, konst(rng.Intn(64)), 5)
+		}
+	}
+	c.wait(wAll)
+	c.use()
+}
+
+// ---- family "lds": several rounds of LDS traffic in groups of several wavefronts
+
+func genLDSRounds(rng *vh.Rng, a *asm, k *MicroKernel) {
+	k.LDS = 4 * k.WGSize
+	mask := 1<<uint(log2(k.WGSize)) - 1
+	a.waitcnt(wAll)
+	a.sopk(0, 18, mask)
+	a.vop2(18, 12, konst(2), 0) // v12 = tid*4
+	rounds := 2 + rng.Intn(6)
+	for r := 0; r < rounds; r++ {
+		a.ds(13, 12, 5, 0, 0)  // lds[tid] = v5
+		a.ds(54, 12, 0, 8, 0)  // v8 = lds[tid]
+		a.waitcnt(wLGK0)
+		a.vop2(25, 5, vsrc(8), 5)                  // v5 += v8
+		a.vop2(25, 5, konst(1+rng.Intn(30)), 5)    // v5 += c
+		if rng.Intn(3) == 0 {
+			// exchange with a neighbour of the same group
+			a.sopp(10, 0) // s_barrier (everybody has written)
+			a.vop2(25, 10, konst(1+rng.Intn(63)), 0)
+			a.vop2(19, 10, sgpr(18), 10)
+			a.vop2(18, 10, konst(2), 10)
+			a.ds(54, 10, 0, 11, 0) // v11 = lds[(tid+c)&mask]
+			a.waitcnt(wLGK0)
+			a.vop2(21, 9, vsrc(11), 9)
+			a.sopp(10, 0) // s_barrier (everybody has read before the next round overwrites)
+		}
+	}
+	a.vop1(1, 10, konst(5))
+	a.vop1(1, 11, konst(9))
+}
+
+// ---- family "getpc": the program counter as data, and a pc-relative scalar load
+
+func genGetPC(rng *vh.Rng, a *asm, k *MicroKernel) (patchWord, pcAfter int) {
+	a.waitcnt(wAll)
+	a.sop1(28, 24, 0) // s_getpc_b64 s[24:25]
+	pcAfter = a.pc()
+	a.vop2(25, 9, sgpr(24), 9) // v9 += low half of the PC
+	patchWord = len(a.w)
+	a.sopk(0, 26, 0)                  // s_movk_i32 s26, <distance to the table>  (patched)
+	a.sop2(0, 24, sgpr(24), sgpr(26)) // s_add_u32 s24, s24, s26
+	a.sop2(4, 25, sgpr(25), konst(0)) // s_addc_u32 s25, s25, 0
+	a.smemLoad(0, 13, 24, 4*rng.Intn(8))
+	a.waitcnt(wLGK0)
+	a.vop2(21, 5, sgpr(13), 5)
+	return patchWord, pcAfter
+}
+
+func genGeneral(rng *vh.Rng, a *asm, k *MicroKernel) {
+	feat := map[string]bool{
+		"loop": rng.Intn(2) == 0, "lds": rng.Intn(3) == 0, "in2": rng.Intn(2) == 0,
+		"sload": rng.Intn(3) == 0, "cndmask": rng.Intn(3) == 0, "late-wait": rng.Intn(2) == 0,
+		"x2": rng.Intn(4) == 0, "diverge": rng.Intn(3) == 0, "wg-dependent-trip": rng.Intn(2) == 0,
+	}
+	for f, on := range feat {
+		if on {
+			k.Features = append(k.Features, f)
+		}
+	}
 	if feat["in2"] {
 		a.flat(20, 13, 0, 9) // flat_load_dword v9, v[13:14]
 	}
@@ -192,11 +448,19 @@ func genMicro(rng *vh.Rng, idx int) MicroKernel {
 	if feat["loop"] {
 		a.sop1(0, 16, konst(1+rng.Intn(6))) // s_mov_b32 s16, n
 		if feat["wg-dependent-trip"] {
-			a.sop2(12, 16, sgpr(2), konst(3))  // s_and_b32 s16, s2, 3
+			a.sop2(12, 16, sgpr(2), konst(3)) // s_and_b32 s16, s2, 3
 			a.sop2(0, 16, sgpr(16), konst(1)) // s_add_u32 s16, s16, 1
 		}
 		top := a.pc()
 		genOps(rng, a, 1+rng.Intn(6))
+		if rng.Intn(3) == 0 {
+			// a store in the loop body followed (next iteration) by a scalar load
+			scrAddr(a, 0)
+			a.flat(28, 22, 5, 0)
+			a.smemLoad(0, 14, 6, 4*rng.Intn(16))
+			a.waitcnt(wLGK0)
+			a.vop2(25, 5, sgpr(14), 5)
+		}
 		a.sop2(1, 16, sgpr(16), konst(1)) // s_sub_u32 s16, s16, 1
 		a.sopc(7, sgpr(16), konst(0))     // s_cmp_lg_u32 s16, 0
 		a.sopp(5, (top-(a.pc()+4))/4)     // s_cbranch_scc1 top
@@ -233,23 +497,46 @@ func genMicro(rng *vh.Rng, idx int) MicroKernel {
 		a.vop2(21, 5, vsrc(8), 5) // v5 ^= v8
 	}
 	genOps(rng, a, rng.Intn(4))
-	// fold the temporaries (and through them the scalar ones) into the two stored values
-	a.vop2(21, 5, vsrc(8), 5)             // v5 ^= v8
-	a.vop2(25, 5, vsrc(10), 5)            // v5 += v10
-	a.vop2(21, 9, vsrc(11), 9)            // v9 ^= v11
-	a.vop2(25, 9, sgpr(pick(rng, sTemps)), 9) // v9 += s
-	a.flat(28, 6, 5, 0)  // flat_store_dword v[6:7], v5
-	a.flat(28, 15, 9, 0) // flat_store_dword v[15:16], v9
-	if rng.Bool() {
-		a.waitcnt(wAll)
+}
+
+// genMicro builds kernel idx.  profile "lds" makes every kernel an LDS kernel
+// with many work-groups (for platforms with very few compute units).
+func genMicro(rng *vh.Rng, idx int, profile string) MicroKernel {
+	k := MicroKernel{Index: idx, Features: []string{}}
+	k.WGSize = []int{64, 64, 128, 256, 96, 192}[rng.Intn(6)]
+	k.NumWG = []int{1, 2, 3, 5, 8}[rng.Intn(5)]
+	family := []string{"general", "general", "chain", "chain", "lds", "getpc"}[rng.Intn(6)]
+	if profile == "lds" {
+		family = "lds"
+		if rng.Intn(4) == 0 {
+			family = "chain"
+		}
+		k.NumWG = 4 + rng.Intn(21)
 	}
-	a.sopp(1, 0) // s_endpgm
-	k.Words = a.w
-	for f, on := range feat {
-		if on {
-			k.Features = append(k.Features, f)
+	k.Features = append(k.Features, "family:"+family)
+	a := &asm{}
+	prologue(a, &k)
+	patch, pcAfter := -1, 0
+	switch family {
+	case "general":
+		genGeneral(rng, a, &k)
+	case "chain":
+		genChain(rng, a, &k)
+	case "lds":
+		genLDSRounds(rng, a, &k)
+	case "getpc":
+		patch, pcAfter = genGetPC(rng, a, &k)
+	}
+	epilogue(rng, a)
+	k.CodeWords = len(a.w)
+	if patch >= 0 {
+		// constant table behind the program, reached relative to the PC
+		a.w[patch] |= uint32(uint16(a.pc() - pcAfter))
+		for i := 0; i < 8; i++ {
+			a.emit(uint32(0x1000193*(idx+1)) + 0x9E3779B1*uint32(i+1))
 		}
 	}
+	k.Words = a.w
 	sort.Strings(k.Features)
 	return k
 }
@@ -266,7 +553,7 @@ func (k *MicroKernel) codeObject() *insts.KernelCodeObject {
 	data := k.bytes()
 	// every word must decode
 	d := insts.NewDisassembler()
-	for off := 0; off < len(data); {
+	for off := 0; off < 4*k.CodeWords; {
 		buf := data[off:]
 		if len(buf) < 8 {
 			buf = append(append([]byte{}, buf...), 0, 0, 0, 0)
@@ -279,11 +566,11 @@ func (k *MicroKernel) codeObject() *insts.KernelCodeObject {
 	}
 	meta := &insts.KernelCodeObjectMeta{
 		ComputePgmRsrc2:             1 << 7,
-		KernargSegmentByteSize:      32,
+		KernargSegmentByteSize:      40,
 		GroupSegmentByteSize:        uint32(k.LDS),
 		EnableSgprKernargSegmentPtr: true,
-		WFSgprCount:                 24,
-		WIVgprCount:                 24,
+		WFSgprCount:                 32,
+		WIVgprCount:                 28,
 	}
 	return &insts.KernelCodeObject{KernelCodeObjectMeta: meta, Data: data, Version: insts.CodeObjectV3,
 		Symbol: &elf.Symbol{Name: fmt.Sprintf("micro%d", k.Index), Size: uint64(len(data))}}
@@ -291,7 +578,7 @@ func (k *MicroKernel) codeObject() *insts.KernelCodeObject {
 
 // MicroArgs is the kernel-argument segment of every micro-kernel.
 type MicroArgs struct {
-	In, In2, Out, Out2 driver.Ptr
+	In, In2, Out, Out2, Scr driver.Ptr
 }
 
 // MicroResult is what one platform did with one kernel.
@@ -299,6 +586,7 @@ type MicroResult struct {
 	MicroKernel
 	Out    []uint32          `json:"out"`
 	Out2   []uint32          `json:"out2"`
+	Scr    []uint32          `json:"scr"`
 	Traces map[string]string `json:"traces"` // wavefront -> "count:sha256 of the executed instruction texts"
 }
 
@@ -352,6 +640,29 @@ func (t *wfTrace) StepTask(task tracing.Task)         {}
 func (t *wfTrace) AddMilestone(m tracing.Milestone) {}
 func (t *wfTrace) EndTask(task tracing.Task)          {}
 
+// buildPlatform builds "emu", "r9nano", "mi300a" or a timing platform with a
+// chosen shape "r9nano:<shader arrays>x<CUs per array>" (verif-tag hook of timingconfig).
+func buildPlatform(spec string) *simulation.Simulation {
+	s := simulation.MakeBuilder().WithoutMonitoring().Build()
+	if spec == "emu" {
+		emusystem.MakeBuilder().WithSimulation(s).WithNumGPUs(1).WithArchitecture(arch.GCN3).Build()
+		return s
+	}
+	sampling.InitSampledEngine()
+	name, shape, shaped := strings.Cut(spec, ":")
+	b := timingconfig.MakeBuilder().WithSimulation(s).WithNumGPUs(1).WithGPUType(name)
+	if !shaped {
+		b.Build()
+		return s
+	}
+	var sa, cus int
+	if _, err := fmt.Sscanf(shape, "%dx%d", &sa, &cus); err != nil {
+		panic("bad platform shape " + spec)
+	}
+	b.VerifBuildShapeOf(sa, cus)
+	return s
+}
+
 func microMain() {
 	seed := flag.Uint64("seed", 1, "seed")
 	n := flag.Int("n", 20, "number of kernels")
@@ -359,12 +670,13 @@ func microMain() {
 	platform := flag.String("platform", "emu", "emu | r9nano | mi300a")
 	out := flag.String("out", "", "result JSON")
 	dump := flag.Bool("print", false, "print the disassembly of the kernels and exit")
+	profile := flag.String("profile", "", "\"lds\": LDS kernels with many work-groups")
 	flag.Parse()
 
 	rng := vh.NewRng(*seed)
 	var ks []MicroKernel
 	for i := 0; i < *n; i++ {
-		k := genMicro(rng.Fork(), i)
+		k := genMicro(rng.Fork(), i, *profile)
 		if *only < 0 || *only == i {
 			ks = append(ks, k)
 		}
@@ -375,7 +687,7 @@ func microMain() {
 		for _, k := range ks {
 			fmt.Printf("kernel %d wg=%d x %d lds=%d %v\n", k.Index, k.WGSize, k.NumWG, k.LDS, k.Features)
 			data := append(k.bytes(), 0, 0, 0, 0)
-			for off := 0; off < 4*len(k.Words); {
+			for off := 0; off < 4*k.CodeWords; {
 				inst, err := d.Decode(data[off:])
 				if err != nil {
 					panic(err)
@@ -387,13 +699,7 @@ func microMain() {
 		return
 	}
 
-	s := simulation.MakeBuilder().WithoutMonitoring().Build()
-	if *platform == "emu" {
-		emusystem.MakeBuilder().WithSimulation(s).WithNumGPUs(1).WithArchitecture(arch.GCN3).Build()
-	} else {
-		sampling.InitSampledEngine()
-		timingconfig.MakeBuilder().WithSimulation(s).WithNumGPUs(1).WithGPUType(*platform).Build()
-	}
+	s := buildPlatform(*platform)
 	tr := &wfTrace{texts: map[string][]string{}, cos: map[*insts.KernelCodeObject]int{}, pr: insts.NewInstPrinter(nil)}
 	for _, c := range s.Components() {
 		switch c := c.(type) {
@@ -431,15 +737,19 @@ func microMain() {
 		dIn2 := d.AllocateMemory(ctx, uint64(4*len(in2)))
 		dOut := d.AllocateMemory(ctx, uint64(4*total))
 		dOut2 := d.AllocateMemory(ctx, uint64(4*total))
+		dScr := d.AllocateMemory(ctx, uint64(4*total*scrSlots))
 		d.MemCopyH2D(ctx, dIn, in)
 		d.MemCopyH2D(ctx, dIn2, in2)
 		d.MemCopyH2D(ctx, dOut, make([]uint32, total))
 		d.MemCopyH2D(ctx, dOut2, make([]uint32, total))
-		args := MicroArgs{dIn, dIn2, dOut, dOut2}
+		d.MemCopyH2D(ctx, dScr, make([]uint32, total*scrSlots))
+		args := MicroArgs{dIn, dIn2, dOut, dOut2, dScr}
 		d.LaunchKernel(ctx, co, [3]uint32{uint32(total), 1, 1}, [3]uint16{uint16(k.WGSize), 1, 1}, &args)
-		r := MicroResult{MicroKernel: k, Out: make([]uint32, total), Out2: make([]uint32, total), Traces: map[string]string{}}
+		r := MicroResult{MicroKernel: k, Out: make([]uint32, total), Out2: make([]uint32, total),
+			Scr: make([]uint32, total*scrSlots), Traces: map[string]string{}}
 		d.MemCopyD2H(ctx, r.Out, dOut)
 		d.MemCopyD2H(ctx, r.Out2, dOut2)
+		d.MemCopyD2H(ctx, r.Scr, dScr)
 		res = append(res, r)
 	}
 	tr.mu.Lock()
